@@ -76,6 +76,19 @@ def brute_wrap(match, target, wrappers, maxlen=3):
     return None
 
 
+def cf_contents(rng, schema, frags):
+    """contents handed to create_and_fill: nothing, content of generated documents, and such content with a mark put on
+    one of its (block or inline) children whether or not a parent would allow it"""
+    out = [rng.choice(frags) if rng.random() < 0.6 else Fragment.empty]
+    if schema.marks and frags:
+        fr = rng.choice(frags)
+        if fr.child_count:
+            i = rng.randrange(fr.child_count)
+            m = gen.gen_mark(rng, schema)
+            out.append(fr.replace_child(i, fr.child(i).mark(m.add_to_set(fr.child(i).marks))))
+    return out
+
+
 def run(ctx):
     core.lean_phase(ctx)
     rng = ctx.rng
@@ -159,25 +172,25 @@ def run(ctx):
             # ---- create_and_fill
             if t.has_required_attrs():
                 continue
-            content = rng.choice(frags) if rng.random() < 0.6 else Fragment.empty
-            st, node = outcome(lambda: t.create_and_fill(None, content))
-            replay = {"schema": info.name, "type": t.name, "content": content.to_json()}
-            ctx.case(["create_and_fill", info.name, t.name, content.to_json()])
-            if st != "ok":
-                ctx.violation("create_and_fill-raises", f"create_and_fill raised {node}", replay)
-            elif node is not None:
-                stc, err = outcome(node.check)
-                kids = [c for c in node.content.content]
-                given = list(content.content)
-                it = iter(kids)
-                in_order = all(any(g.eq(k) for k in it) for g in given)
-                inner_ok = all(outcome(g.check)[0] == "ok" for g in given)
-                if (stc != "ok" and inner_ok) or not in_order:
-                    ctx.violation("create_and_fill", f"create_and_fill result invalid ({err}) or does not contain the given content in order",
-                                  dict(replay, result=node.to_json()))
-                ctx.count("create_and_fill:some")
-            else:
-                ctx.count("create_and_fill:none")
+            for content in cf_contents(rng, schema, frags):
+              st, node = outcome(lambda: t.create_and_fill(None, content))
+              replay = {"schema": info.name, "type": t.name, "content": content.to_json()}
+              ctx.case(["create_and_fill", info.name, t.name, content.to_json()])
+              if st != "ok":
+                  ctx.violation("create_and_fill-raises", f"create_and_fill raised {node}", replay)
+              elif node is not None:
+                  stc, err = outcome(node.check)
+                  kids = [c for c in node.content.content]
+                  given = list(content.content)
+                  it = iter(kids)
+                  in_order = all(any(g.eq(k) for k in it) for g in given)
+                  inner_ok = all(outcome(g.check)[0] == "ok" for g in given)
+                  if (stc != "ok" and inner_ok) or not in_order:
+                      ctx.violation("create_and_fill", f"create_and_fill result invalid ({err}) or does not contain the given content in order",
+                                    dict(replay, result=node.to_json()))
+                  ctx.count("create_and_fill:some")
+              else:
+                  ctx.count("create_and_fill:none")
     outs = ctx.driver.run(reqs) if reqs else []
     for req, (op, replay, impl), out in zip(reqs, metas, outs):
         ctx.count("model_requests")
